@@ -206,7 +206,7 @@ class Contract:
 
     @property
     def qualname(self):
-        return self.key.split(":", 1)[1]
+        return self.key.split(":", 1)[1].split("#")[0]      # "#variant" distinguishes several contracts on one function
 
     @property
     def module_name(self):
